@@ -167,3 +167,59 @@ def construction_paths_family(out, prop):
             if (b.width, b.height, b.area) != (2, 3, 6):
                 out.violation(f'{prop}:hook-assigning-field', f'{label}: got {b!r}, expected Box(width=2, height=3, area=6)', {'path': label})
     return n
+
+
+def same_class_union_serialisation(out, prop):
+    """Untagged unions whose members accept values of the SAME Python class and differ only in the contents they accept
+    (List[int] | List[float], two tuple lengths, Dict[str, int] | Dict[str, Fraction], Literal | float).  Every value, in every
+    order of serialisation through the same (memoised) converter, is written as its own left-most accepting member writes it."""
+    import fractions
+    import pane
+    from pane.convert import make_converter
+    from pane.converters import ParseInterrupt
+    n = 0
+    fams = [
+        (t.Union[t.List[int], t.List[float]], [[1, 2], [1.5, 2.5], [], [3]]),
+        (t.Union[t.Tuple[int, int], t.Tuple[int, int, int]], [(1, 2), (1, 2, 3), (4, 5)]),
+        (t.Union[t.Dict[str, int], t.Dict[str, fractions.Fraction]], [{'a': 1}, {'a': fractions.Fraction(1, 3)}, {'b': 2}]),
+        (t.Union[t.Literal[1], float], [1, 2.0, 1]),
+        (t.Union[t.List[t.Literal['a']], t.List[str]], [['a'], ['b', 'a'], ['a', 'a']]),
+    ]
+    import itertools
+    with warnings.catch_warnings():
+        warnings.simplefilter('ignore')
+        for U, vals in fams:
+            members = [type(None) if a is None else a for a in t.get_args(U)]
+
+            def own(v):
+                for m in members:
+                    cv = make_converter(m)
+                    try:
+                        cv.try_convert(v)
+                        return cv.into_data(v)
+                    except ParseInterrupt:
+                        continue
+                return None
+            want = [own(v) for v in vals]
+
+            class Holder(pane.PaneBase):
+                u: U
+                us: t.List[U] = pane.field(default_factory=list)
+            for order in itertools.permutations(range(len(vals))):
+                got = {}
+                for i in order:
+                    n += 1
+                    got[i] = pane.into_data(vals[i], U)
+                bad = [i for i in order if got[i] != want[i] or type(got[i]) is not type(want[i])]
+                if bad:
+                    i = bad[0]
+                    out.violation(f'{prop}:same-class-union-serialisation', f'into_data({vals[i]!r}, {U!r}) = {got[i]!r} after serialising {[vals[j] for j in order[:order.index(i)]]!r} '
+                                  f'through the same converter; its left-most accepting member writes {want[i]!r}', {'union': repr(U), 'order': [repr(vals[j]) for j in order]})
+                    break
+            n += 1
+            h = Holder.make_unchecked(vals[0], list(vals))
+            d = h.into_data()
+            if d['us'] != want or d['u'] != want[0]:
+                out.violation(f'{prop}:same-class-union-serialisation', f'a dataclass with u: {U!r} and us: List[...] holding {vals!r} serialises to {d!r}; expected u={want[0]!r}, us={want!r}',
+                              {'union': repr(U)})
+    return n
